@@ -13,6 +13,9 @@ CONSTANTS
   UseFollower = TRUE
   UseBounded = TRUE
   C0 = "c1"
+  UseRace = FALSE
+  MaxElect = 0
+  StrandedKnown = TRUE
   UseBad = FALSE
 INVARIANTS C13_OneActive
 PROPERTIES StepsOK
